@@ -674,6 +674,8 @@ class Data(Field):
 
                 elif isinstance(self.byte_count, Field):
                     byte_count = getattr(pkt, self.byte_count.field_name)
+                    if isinstance(byte_count, Any):
+                        byte_count = None  # unknown size
 
                 elif callable(self.byte_count):
                     try:
